@@ -1,6 +1,7 @@
 package main
 
 import (
+	"go/types"
 	"go/token"
 	"strings"
 
@@ -155,4 +156,86 @@ func invalidateSweepRule(c *Ctx, rule string, rels []string, floor int) {
 		}
 	}
 	c.Check(n >= floor, rule, "instances", 0, "sweep procedures found ("+itoa(n)+")", "only "+itoa(n)+" invalidation sweep procedures found (expected at least "+itoa(floor)+")")
+}
+
+// progressHonestFindings: functions with a single bool result ("made progress")
+// in which a port/buffer hand-off can be followed, on some path, by a return of
+// the constant false: the progress made is then not reported, the component is
+// not ticked again, and whatever relied on the follow-up tick is stranded.
+type progressFinding struct {
+	fn  *ssa.Function
+	op  ssa.Instruction
+	ret ssa.Instruction
+}
+
+func progressHonestFindings(fns []*ssa.Function) (checked int, out []progressFinding) {
+	for _, fn := range fns {
+		res := fn.Signature.Results()
+		if res.Len() != 1 || len(fn.Blocks) == 0 {
+			continue
+		}
+		if b, ok := res.At(0).Type().Underlying().(*types.Basic); !ok || b.Kind() != types.Bool {
+			continue
+		}
+		var ops []ssa.Instruction
+		for _, b := range fn.Blocks {
+			for _, in := range b.Instrs {
+				if call, ok := in.(ssa.CallInstruction); ok {
+					n, pk := calleeNamePkg(call)
+					if strings.HasSuffix(pk, "/messaging") && (n == "Deliver" || n == "Send" || n == "RetrieveIncoming" || n == "RetrieveOutgoing") {
+						ops = append(ops, in)
+					}
+				}
+			}
+		}
+		if len(ops) == 0 {
+			continue
+		}
+		checked++
+		for _, b := range fn.Blocks {
+			ret, ok := b.Instrs[len(b.Instrs)-1].(*ssa.Return)
+			if !ok {
+				continue
+			}
+			cst, isC := ret.Results[0].(*ssa.Const)
+			if !isC || cst.Value == nil || cst.Value.String() != "false" {
+				continue
+			}
+			afterPanic := false
+			for _, in := range b.Instrs {
+				if call, isCall := in.(ssa.CallInstruction); isCall {
+					n, pk := calleeNamePkg(call)
+					if pk == "log" && strings.HasPrefix(n, "Panic") || pk == "log" && strings.HasPrefix(n, "Fatal") {
+						afterPanic = true
+					}
+				}
+			}
+			if afterPanic {
+				continue // unreachable return after log.Panic*
+			}
+			for _, op := range ops {
+				if Reaches(op, ret) {
+					out = append(out, progressFinding{fn, op, ret})
+					break
+				}
+			}
+		}
+	}
+	return
+}
+
+func progressHonestRule(c *Ctx, rule string, pred func(string) bool, floor int) {
+	p := c.P
+	n, fs := progressHonestFindings(p.SrcFuncs(pred))
+	bad := map[*ssa.Function]string{}
+	for _, f := range fs {
+		bad[f.fn] += "after the hand-off at " + p.Rel(f.op.Pos()) + " the function can return false at " + p.Rel(f.ret.Pos()) + "; "
+	}
+	for fn, why := range bad {
+		c.Fail(rule, SSAFuncKey(fn), fn.Pos(), "a stage that moved a message reports no progress: "+why+"the component is then not ticked again, and a notification that arrived at the same instant (dropped by the tick de-duplication) is never acted upon — messages stay queued although their destination can accept them")
+	}
+	if len(bad) == 0 {
+		c.Ok(rule, "<all stages>", 0, "no stage returns the constant false after a port hand-off ("+itoa(n)+" functions)")
+	}
+	c.Check(n >= floor, rule, "instances", 0, "stages with hand-offs found ("+itoa(n)+")", "only "+itoa(n)+" progress-reporting stages with hand-offs found (expected at least "+itoa(floor)+")")
 }
